@@ -388,7 +388,9 @@ class TtxCli(Unit):
                 pair = {"EBLC": "EBDT", "CBLC": "CBDT"}.get(t)
                 yield [key, ["-t", t] + (["-t", pair] if pair in tags else []), t]
                 if tier == "thorough":
-                    yield [key, ["-x", t], t]
+                    # leaving out a bitmap data table leaves out its location table too (see ASSUMPTIONS)
+                    loc = {"EBDT": "EBLC", "CBDT": "CBLC"}.get(t)
+                    yield [key, ["-x", t] + (["-x", loc] if loc in tags else []), t]
 
     def check(self, case, rec):
         key, opts, tag = case
